@@ -776,9 +776,118 @@ def unroll_literal_loops(root):
     return box["r"]
 
 
+def _fresh_copy(node):
+    """deep copy with fresh ids for the bindings introduced inside it"""
+    _COPY_COUNTER[0] += 1
+    off_ = 10 ** 12 + 10 ** 6 * _COPY_COUNTER[0]
+    c = copy.deepcopy(node)
+    bound_ = {y["id"] for y in walk(c) if y.get("k") == "pbind" and isinstance(y.get("id"), int)}
+    for y in walk(c):
+        if y.get("k") in ("local", "pbind") and y.get("id") in bound_:
+            y["id"] = y["id"] + off_
+    return c
+
+
+def split_tuple_matches(root):
+    """`match (a, b) { (P1, Q1) => x, (_, Q2) => y, .. }` where the patterns of the first component only classify (field-less variants, literals,
+    wildcards) is the nested `match a { P1 => match b { Q1 => x, Q2 => y, .. }, _ => match b { Q2 => y, .. } }`: the arms that can apply to a class,
+    in their order.  Rules written for a dispatch on one value then see the flattened form as well."""
+    def key_of(p):
+        """classification key of a first-component pattern alternative: None = catch-all, False = not a pure classification"""
+        while p.get("k") in ("pref", "pderef"):
+            p = p["pat"]
+        k = p.get("k")
+        if k == "pwild":
+            return None
+        if k in ("pconst", "ppath") or (k == "pvariant" and all(_is_wild(x) for x in p.get("subs", []))) or (k == "pstruct" and not p.get("fields")):
+            return ("v", p.get("path"), len(p.get("subs", [])))
+        if k == "plit" and not isinstance(p.get("v"), (list, dict)):
+            return ("l", repr(p.get("v")))
+        return False
+
+    def _is_wild(p):
+        while p.get("k") in ("pref", "pderef"):
+            p = p["pat"]
+        return p.get("k") == "pwild"
+
+    def simple(e):
+        e = peel(e)
+        while e.get("k") in ("field", "unary") and (e.get("k") == "field" or e.get("op") == "*"):
+            e = peel(e["e"])
+        return e.get("k") in ("local", "lit")
+
+    def visit(holder, key):
+        n = holder[key]
+        if isinstance(n, list):
+            for i in range(len(n)):
+                visit(n, i)
+            return
+        if not isinstance(n, dict):
+            return
+        for k_ in list(n.keys()):
+            if k_ != "mac" and isinstance(n[k_], (dict, list)):
+                visit(n, k_)
+        if n.get("k") != "match" or n.get("src", "match") != "match":
+            return
+        sc = peel(n["scrut"])
+        if sc.get("k") != "tuple" or len(sc.get("es", [])) < 2 or not all(simple(x) for x in sc["es"]):
+            return
+        rows = []          # (keys of the first component [None = any], rest pattern, arm)
+        for arm in n["arms"]:
+            p = arm["pat"]
+            while p.get("k") in ("pref", "pderef"):
+                p = p["pat"]
+            if p.get("k") == "pwild":
+                rows.append(([None], {"k": "pwild"}, arm))
+                continue
+            if p.get("k") != "ptuple" or len(p.get("subs", [])) != len(sc["es"]) or p.get("rest"):
+                return
+            ks = [key_of(a) for a in pat_alts(p["subs"][0])]
+            if any(k is False for k in ks):
+                return
+            rest = p["subs"][1] if len(sc["es"]) == 2 else dict(p, subs=p["subs"][1:])
+            rows.append((ks, rest, arm))
+        order = []
+        for ks, _, _ in rows:
+            for k in ks:
+                if k is not None and k not in order:
+                    order.append(k)
+        if not order or not any(None in ks for ks, _, _ in rows):
+            return          # nothing to regroup: every arm names its class, or none does
+        first_pat = {}
+        for ks, _, arm in rows:
+            p = arm["pat"]
+            while p.get("k") in ("pref", "pderef"):
+                p = p["pat"]
+            if p.get("k") == "ptuple":
+                for a in pat_alts(p["subs"][0]):
+                    if key_of(a) is not None:
+                        first_pat.setdefault(key_of(a), a)
+        used = set()
+
+        def inner(sel):
+            arms = []
+            for ks, rest, arm in rows:
+                if sel in ks or None in ks:
+                    a2 = dict(arm, pat=rest)
+                    if id(arm) in used:
+                        a2 = _fresh_copy(a2)
+                    used.add(id(arm))
+                    arms.append(a2)
+            rest_scrut = sc["es"][1] if len(sc["es"]) == 2 else dict(sc, es=sc["es"][1:])
+            return {"k": "match", "scrut": rest_scrut, "arms": arms, "ty": n.get("ty"), "sp": n.get("sp"), "src": "match", "split_from_tuple": True}
+        outer_arms = [{"pat": first_pat[k], "body": inner(k), "sp": n.get("sp")} for k in order]
+        outer_arms.append({"pat": {"k": "pwild"}, "body": inner(None), "sp": n.get("sp")})
+        holder[key] = {"k": "match", "scrut": sc["es"][0], "arms": outer_arms, "ty": n.get("ty"), "sp": n.get("sp"), "src": "match", "split_from_tuple": True}
+    box = {"r": root}
+    visit(box, "r")
+    return box["r"]
+
+
 def prepare(f, crate, force=()):
     """inlined copy + alias registration (idempotent per function object)"""
     g = inline_helpers(f, crate, force=force)
+    g["body"] = split_tuple_matches(g["body"])
     g["body"] = desugar_bool_adapters(g["body"])
     g["body"] = unroll_literal_loops(g["body"])
     apply_ctor_values(g["body"])
